@@ -22,6 +22,8 @@ SCENARIOS = [
        EO_A + ["a listening catch event continues exactly once on a matching event"]),
     sc("VerifC11b_SmallInbox_2", "C11.b 2 events, listener with inbox capacity 1", "token parked at a catch event without declared incoming flows (inbox capacity 1); 2 events from {sig1, sig2, noise}",
        EO_A + ["a listening catch event continues exactly once on a matching event"]),
+    sc("VerifC11d_WithdrawnListener", "C11.d events for a withdrawn listener", "a token listening at a catch event is withdrawn through its termination channel (as the losers of an event-based gateway are); then 2 matching events from one goroutine",
+       eo=["delivering an event returns whether or not the catch events have been reached", "an event for a withdrawn listener has no effect"]),
     sc("VerifC11c_Revisit", "C11.c catch event reached a second time", "token, matching event, second token at the same catch event, matching event",
        EO_A + ["a catch event that is reached again listens again and continues once per matching event"], K=120),
     sc("VerifC11b_Listening_3", "C11.b 3 events, token listening", "token parked at c1; 3 events", EO_A, tiers=("thorough",), K=120),
